@@ -180,6 +180,42 @@ def run(rep, tier, seed):
                         finally:
                             pipeline.restore_params(nd, gm)
                     slots.append(dict(fn=fn, pat=pat, as_param=sorted(as_param), vals=[[float(x) for x in v] for v in vals], exp=exp, real=real, n=n))
+    # ---- numeric literals as arguments, next to other constants of the equation: Min(3*z, 1e18) - 1, Saturation(z, -1e6, 1e6) + 0.5 ...
+    #      (a literal is an argument like any other; how sympy restructures the rewritten expression must not change the value)
+    nlit = 0
+    zs = np.array([1.0, 0.1, 1e-3, -2.0, 0.5, 3e7])
+    for cap in (1e18, 1e6, 100.0, 0.25, -1e9):
+        for d in (-1.0, 0.5, 1e-3):
+            for form in ("min(a*z, c)", "min(c, a*z)", "sat(z, -|c|, |c|)", "awu(z, -|c|, |c|, z)"):
+                zv = ("var", 0, ("w",))
+                az = ("mul", ("num", 3.0), zv)
+                if form == "min(a*z, c)":
+                    tree, ref = ("min", az, ("num", cap, "float")), np.array([doc("min", 3.0 * v, cap) for v in zs])
+                elif form == "min(c, a*z)":
+                    tree, ref = ("min", ("num", cap, "float"), az), np.array([doc("min", cap, 3.0 * v) for v in zs])
+                elif form.startswith("sat"):
+                    tree, ref = ("sat", zv, ("num", -abs(cap), "float"), ("num", abs(cap), "float")), np.array([doc("sat", v, -abs(cap), abs(cap)) for v in zs])
+                else:
+                    tree, ref = ("awu", zv, ("num", -abs(cap), "float"), ("num", abs(cap), "float"), zv), np.array([doc("awu", v, -abs(cap), abs(cap), v) for v in zs])
+                gm = lang.GModel("AE", [("z", [float(v) for v in zs], None)], [], [("e0", "alg", ("add", tree, ("num", d)), None)])
+                case = dict(equation=f"{form} + ({d})", c=cap, z=[float(v) for v in zs])
+                try:
+                    b = pipeline.Built(gm); b.add_inline()
+                except Exception as ex:  # noqa
+                    fails.append((case, f"{form} with the literal {cap} cannot be built: {type(ex).__name__}: {str(ex)[:120]}")); continue
+                for label, (nd, eqs, y0) in b.backends.items():
+                    nlit += 1
+                    try:
+                        with warnings.catch_warnings():
+                            warnings.simplefilter("ignore")
+                            got = np.asarray(nd.F(zs.copy(), nd.p), dtype=float)
+                    except Exception as ex:  # noqa
+                        fails.append((case, f"{form} + ({d}) with c = {cap} ({label}) raised {type(ex).__name__}: {str(ex)[:100]}")); continue
+                    tol = 16 * np.spacing(1.0) * (np.abs(ref) + abs(d))
+                    if not np.all(np.abs(got - (ref + d)) <= tol):
+                        fails.append((case, f"{form} + ({d}) with the literal c = {cap} evaluates to {got} ({label}) at z = {list(zs)}, "
+                                            f"the documented value is {ref + d}"))
+    rep.cov["literal_argument_evaluations"] = nlit
     try:
         answers = run_driver(lines)
     except LeanError as ex:
